@@ -28,7 +28,8 @@ ASSUMPTIONS = [
 def plan(tier):
     base = {"case_time_limit": 240,
             "required_classes": ["one-site-chain", "stop-at-centre", "overcomplete-bond", "rank-deficient-bond", "bond-one",
-                                 "mpo", "mpdm", "mps", "variational", "sweep:to_right", "sweep:to_left", "idempotence"],
+                                 "mpo", "mpdm", "mps", "variational", "sweep:to_right", "sweep:to_left", "idempotence",
+                                 "long-chain", "sector:zero-with-signed-labels", "variational:own-limit-below-schedule"],
             "required_counters": {"oracle": 2000, "isometry_checks": 1000}}
     if tier == "quick":
         base.update({"ncases": 320, "min_nontrivial": 60})
@@ -60,8 +61,13 @@ def build_object(ctx):
         gm = gen.random_basis_list(rng, nsite=nsite, max_dim=24, min_dim=2)
     if len(gm.basis) == 1:
         ctx.cls("one-site-chain")
+    if kind == "mps" and not one_site and rng.random() < 0.08:
+        gm = gen.signed_spin_chain(rng, nsite=(3, 8))
     model = states.model_of(gm)
     qntot = states.pick_sector(rng, gm)
+    if gm.desc.get("signed") and gen.zero_sector(gm) is not None:
+        qntot = gen.zero_sector(gm)
+        ctx.cls("sector:zero-with-signed-labels")
     desc = {"kind": kind, "model": gm.describe(), "sector": qntot.tolist(), "construction": []}
     ctx.cls(kind, "qn-" + gm.desc["qn_mode"])
 
@@ -328,7 +334,17 @@ def run_case(ctx):
                 # library defaults (two-site sweeps, guess bond 5) except that the operator part of the guess is never
                 # truncated: a truncated operator can annihilate the state, and the library documents that one-site
                 # sweeps may get stuck; neither is part of the property
-                src.compress_config = CompressConfig(CompressCriteria.fixed, max_bonddim=m,
+                vproc = None
+                style = int(rng.integers(0, 2))
+                m0 = m
+                # (a schedule that ramps the limit up from below the ranks is NOT used: once a sweep has truncated, the
+                # later sweeps need not recover the lost symmetry blocks - convergence is then no theorem, see 8.2)
+                if style == 1 and m >= 2:
+                    # the state's own fixed limit is smaller than what the schedule asks for
+                    m0 = 1
+                    vproc = [[m, 0.5], [m, 0.3], [m, 0.1]] + [[m, 0]] * 10
+                    ctx.cls("variational:own-limit-below-schedule")
+                src.compress_config = CompressConfig(CompressCriteria.fixed, max_bonddim=m0, vprocedure=vproc,
                                                      vguess_m=(max(5, int(max(o.bond_dims))), 5))
                 if max(src.bond_dims) > 5:
                     ctx.cls("variational:truncated-guess")
